@@ -53,6 +53,16 @@ func (n *reNode) Close(ctx context.Context) error {
 	return nil
 }
 
+// wrapNode: a decorator that is not a Closer itself but unwraps to one (NodeUnwrapper)
+type wrapNode struct{ inner eventlogger.Node }
+
+func (w *wrapNode) Process(ctx context.Context, e *eventlogger.Event) (*eventlogger.Event, error) {
+	return w.inner.Process(ctx, e)
+}
+func (w *wrapNode) Reopen() error              { return w.inner.Reopen() }
+func (w *wrapNode) Type() eventlogger.NodeType { return w.inner.Type() }
+func (w *wrapNode) Unwrap() eventlogger.Node   { return w.inner }
+
 func watchdog(name string, oracle func(string, ...any), f func()) bool {
 	done := make(chan struct{})
 	go func() { f(); close(done) }()
@@ -92,7 +102,11 @@ func reentryMain(args []string) {
 				}
 				gf := &gated.Filter{Broker: b, Expiration: time.Hour}
 				b.RegisterNode("re", mk(eventlogger.NodeTypeFilter))
-				b.RegisterNode("gated", gf)
+				if r%2 == 1 {
+					b.RegisterNode("gated", &wrapNode{gf}) // closed through Unwrap
+				} else {
+					b.RegisterNode("gated", gf)
+				}
 				b.RegisterNode("fmt", mk(eventlogger.NodeTypeFormatter))
 				b.RegisterNode("sink", mk(eventlogger.NodeTypeSink))
 				b.RegisterNode("ifmt", mk(eventlogger.NodeTypeFormatter))
